@@ -224,3 +224,114 @@ Proof.
   intros H. unfold resize. replace (v_len v <? new_len) with false by (symmetry; apply N.ltb_ge; exact H).
   cbn [fst snd f_drops]. split; reflexivity.
 Qed.
+
+(* ---------- amortised growth (C18) and refusals (C19) ---------- *)
+(* when an amortised reservation has to grow the buffer, the capacity at least doubles *)
+Theorem reserve_doubles e v c extra v' :
+  repr e v c -> try_reserve e v extra false = inl v' ->
+  v_cap v < v_len v + extra -> 2 * v_cap v <= v_cap v'.
+Proof.
+  intros R H Hgrow. pose proof (repr_cap_ge_len e v c R) as Hle. pose proof (repr_cap_lt_W e v c R) as HW.
+  unfold try_reserve in H.
+  assert (Hs : wsub (v_cap v) (v_len v) = v_cap v - v_len v).
+  { unfold wsub. replace (v_cap v + W - v_len v) with ((v_cap v - v_len v) + 1 * W) by lia.
+    rewrite N.mod_add by (unfold W; lia). apply N.mod_small. lia. }
+  rewrite Hs in H.
+  destruct (extra <=? v_cap v - v_len v) eqn:E; [apply N.leb_le in E; lia|].
+  unfold reserve_internal in H. unfold checked_add in H.
+  destruct (v_len v + extra <? W); [|discriminate].
+  destruct (layout_array (e_size e) (e_align e) (N.max (v_cap v * 2) (v_len v + extra))) as [l|]; [|discriminate].
+  destruct (l_size l <? ARENA_GRANTS); [|discriminate].
+  inversion H; subst v'; clear H.
+  destruct R as ((rest & Hb) & Hl & Hc & He).
+  assert (Hn : (length c + length rest <= nn (N.max (v_cap v * 2) (v_len v + extra)))%nat).
+  { unfold v_cap in *. rewrite Hb, app_length, map_length in *. unfold nn. lia. }
+  unfold v_cap at 2. cbn [v_buf]. rewrite Hb, (resize_buf_grow c rest _ Hn).
+  rewrite app_length, map_length, app_length, repeat_length. unfold nn in *. lia.
+Qed.
+
+(* n pushes starting from an empty vector of capacity 0: the capacity only ever changes by
+   (at least) doubling, so after k changes it is at least 2^(k-1) *)
+Lemma push_cap e v c x v' : repr e v c -> push e v x = Ret v' ->
+  v_cap v' = v_cap v \/ (2 * v_cap v <= v_cap v' /\ 1 <= v_cap v').
+Proof.
+  intros R. unfold push. destruct (v_len v =? v_cap v) eqn:E.
+  - apply N.eqb_eq in E. destruct (reserve e v 1 false) as [v1|k] eqn:ER; [|discriminate].
+    intros H; inversion H; subst v'; clear H. right.
+    destruct (reserve_spec e v c 1 false v1 R ER) as (R1 & Hc1 & _).
+    assert (D : 2 * v_cap v <= v_cap v1).
+    { unfold reserve in ER. destruct (try_reserve e v 1 false) as [w|er] eqn:ET; [|destruct er; discriminate].
+      inversion ER; subst w. apply (reserve_doubles e v c 1 v1 R ET). lia. }
+    destruct R1 as ((rest & Hb) & Hl1 & _).
+    assert (Hrest : (1 <= length rest)%nat).
+    { unfold v_cap in Hc1. rewrite Hb, app_length, map_length in Hc1. destruct R as (_ & Hl & _). lia. }
+    assert (EC : v_cap (mkVec (set_slot (v_buf v1) (nn (v_len v1)) x) (v_len v1 + 1)) = v_cap v1).
+    { unfold v_cap. cbn [v_buf]. unfold set_slot. rewrite overwrite_length; [reflexivity|].
+      rewrite Hb, app_length, map_length. cbn [length]. unfold nn. lia. }
+    rewrite EC. split; [exact D | lia].
+  - intros H; inversion H; subst v'; clear H. left.
+    apply N.eqb_neq in E. pose proof (repr_cap_ge_len e v c R).
+    destruct R as ((rest & Hb) & Hl & _).
+    unfold v_cap. cbn [v_buf]. unfold set_slot. rewrite overwrite_length; [reflexivity|].
+    unfold v_cap in *. rewrite Hb, app_length, map_length in *. cbn [length]. unfold nn. lia.
+Qed.
+
+(* extend_from_slices_copy: a total length that does not fit in usize is refused *)
+Theorem extend_slices_refuses e v slices lens :
+  sum_lens lens = None -> extend_slices_copy e v slices lens = Panic PCapacity.
+Proof. intros H. unfold extend_slices_copy. rewrite H. reflexivity. Qed.
+
+Lemma sum_fold_none (lens : list N) :
+  fold_left (fun acc n => match acc with Some a => checked_add a n | None => None end) lens None = None.
+Proof. induction lens as [|n r IH]; [reflexivity | exact IH]. Qed.
+
+Lemma sum_lens_overflow lens : W <= fold_right N.add 0 lens -> sum_lens lens = None.
+Proof.
+  unfold sum_lens. assert (G : forall a, a < W -> W <= a + fold_right N.add 0 lens ->
+            fold_left (fun acc n => match acc with Some a => checked_add a n | None => None end) lens (Some a) = None).
+  { induction lens as [|n r IH]; intros a Ha H; cbn [fold_left fold_right] in *; [lia|].
+    unfold checked_add at 2. destruct (a + n <? W) eqn:E.
+    - apply N.ltb_lt in E. apply IH; [exact E | lia].
+    - apply sum_fold_none. }
+  intros H. apply G; [unfold W; lia | lia].
+Qed.
+
+(* so: slices whose lengths add up to 2^64 or more are refused, whatever they contain *)
+Corollary extend_slices_overflow_refused e v slices lens :
+  W <= fold_right N.add 0 lens -> extend_slices_copy e v slices lens = Panic PCapacity.
+Proof. intros H. apply extend_slices_refuses. apply sum_lens_overflow. exact H. Qed.
+
+(* pushing a sequence of elements, counting how often the capacity changed (= reallocations) *)
+Fixpoint push_count (e : ecfg) (v : vec) (xs : list N) (k : nat) : outcome (vec * nat) :=
+  match xs with
+  | [] => Ret (v, k)
+  | x :: r =>
+      match push e v x with
+      | Panic p => Panic p
+      | Ret v' => push_count e v' r (if v_cap v' =? v_cap v then k else S k)
+      end
+  end.
+
+(* C18: every reallocation of a growing vector at least doubles it, so k reallocations
+   mean a capacity of at least 2^(k-1): their number is logarithmic in the final capacity *)
+Theorem pushes_realloc_log e : forall xs v c k v' k',
+  repr e v c -> (k = 0%nat \/ 2 ^ N.of_nat (k - 1) <= v_cap v) ->
+  push_count e v xs k = Ret (v', k') ->
+  repr e v' (c ++ xs) /\ (k' = 0%nat \/ 2 ^ N.of_nat (k' - 1) <= v_cap v').
+Proof.
+  induction xs as [|x xs IH]; intros v c k v' k' R Hk H; cbn [push_count] in H.
+  - inversion H; subst. rewrite app_nil_r. split; assumption.
+  - destruct (push e v x) as [w|p] eqn:EP; [|discriminate].
+    pose proof (push_spec e v c x w R EP) as Rw.
+    pose proof (push_cap e v c x w R EP) as PC.
+    replace (c ++ x :: xs) with ((c ++ [x]) ++ xs) by (rewrite <- app_assoc; reflexivity).
+    apply (IH w (c ++ [x]) (if v_cap w =? v_cap v then k else S k) v' k' Rw); [|exact H].
+    destruct (v_cap w =? v_cap v) eqn:E.
+    + apply N.eqb_eq in E. rewrite E. exact Hk.
+    + right. apply N.eqb_neq in E. destruct PC as [PC|[PC1 PC2]]; [contradiction|].
+      replace (S k - 1)%nat with k by lia.
+      destruct Hk as [->|Hk]; [cbn; lia|].
+      destruct k as [|k0]; [cbn; lia|].
+      replace (N.of_nat (S k0)) with (N.succ (N.of_nat (S k0 - 1))) by lia.
+      rewrite N.pow_succ_r'. lia.
+Qed.
